@@ -416,8 +416,13 @@ def early_none(x):
 def _points(k: int, rnd: random.Random) -> list[list[Fraction]]:
     if k == 0:
         return [[]]
-    if len(GRID) ** k <= 216:
+    if len(GRID) ** k <= 36:
         return [list(p) for p in itertools.product(GRID, repeat=k)]
+    if k == 3:      # 110 of the 216 grid points (seeded) + the diagonal + every point with two equal neighbours on {1, 2}
+        allp = [list(p) for p in itertools.product(GRID, repeat=3)]
+        pts = rnd.sample(allp, 110) + [[v] * 3 for v in GRID]
+        pts += [list(p) for p in itertools.product([Fraction(1), Fraction(2)], repeat=3)]
+        return pts
     pts = [[rnd.choice(GRID) for _ in range(k)] for _ in range(150)]
     pts += [[v] * k for v in GRID]
     return pts
@@ -610,9 +615,11 @@ def oracle_pass(ctx: Ctx, rep: Report, fns: list, phase: str, min_encoded: int) 
                 raise MachineryError(f"encoder cross-check failed for {cid} at {[str(x) for x in p]}: "
                                      f"spec {q['st']} {q['v']}, CPython {o['st']} {o['v']}")
         params = enc["params"]
-        arglists = [("own", params), ("fresh", [f"m{j}" for j in range(len(params))])]
-        if len(params) >= 2:
-            arglists.append(("rev", params[::-1]))
+        arglists = [("own", params)]
+        if not phase:           # the second pass of the re-binding history only needs one argument list
+            arglists.append(("fresh", [f"m{j}" for j in range(len(params))]))
+            if len(params) >= 2:
+                arglists.append(("rev", params[::-1]))
         for tag, names in arglists:
             stats["records"] += 1
             try:
@@ -623,9 +630,10 @@ def oracle_pass(ctx: Ctx, rep: Report, fns: list, phase: str, min_encoded: int) 
                 stats["refused"] += 1
                 continue
             obs, raw = [], []
+            expr_x = expr.xreplace({f: sympy.Rational(f) for f in expr.atoms(sympy.Float)})    # once per record
             for p in pts:
                 subs = {sympy.Symbol(n): v for n, v in zip(names, p, strict=True)}
-                j, r = _exact_value(expr, subs)
+                j, r = _exact_value(expr_x, subs)
                 obs.append(j)
                 raw.append((subs, r))
             case = {"id": f"{cid}|{tag}", "params": params, "body": enc["body"],
